@@ -84,6 +84,11 @@ def execute(prop, tier, plan, seed, wdir):
             for line in out.splitlines():
                 if line.startswith("SUMMARY "):
                     summary = json.loads(line[8:])
+                elif line.startswith("STRESS "):
+                    info = json.loads(line[7:])
+                    summary = [{"run": 1, "name": "stress", "steps": info.get("ops", 0), "hang": info.get("stall"), "stuck": False}]
+                    if info.get("stall"):
+                        hang = {"scenario": {"name": "stress: " + str(info.get("stall"))}, "schedule": []}
             if rc == 4:
                 # a panic inside the code under test is data, not a tool failure
                 path = f"{WORK}/replay/{prop}-{name}-panic.json"
